@@ -299,6 +299,34 @@ func runC14(c *Ctx) error {
 			}
 		}
 	}
+	// epochs as the packages carry them: a numerically higher configured epoch must be a numerically higher epoch in
+	// the package (rpm: EPOCH tag; deb, ipk: the digits before ':' in Version, read as dpkg reads them, decimal)
+	famE := c.Rep.Family("epoch-order", "deb, ipk, rpm packages of one version built with the epochs 1, 2, 8, 9, 010, 0010, 12, 100: the epoch found in the package (rpm EPOCH tag; deb/ipk digits before ':' read as a decimal number) must equal the decimal value of the configured epoch, hence every higher epoch sorts after every lower one; non-trivial = every case")
+	famE.Exhaustive = true
+	for _, f := range []string{"deb", "ipk", "rpm"} {
+		for _, ep := range []string{"1", "2", "8", "9", "010", "0010", "12", "100"} {
+			want, _ := strconv.ParseUint(ep, 10, 64)
+			pm, _, err := buildMeta(f, func(i *nfpm.Info) { i.Version, i.Epoch = "1.2.3", ep })
+			famE.Eval(f+"|"+ep, true)
+			in := map[string]any{"format": f, "epoch": ep, "version": "1.2.3"}
+			if err != nil {
+				c.Rep.Find(report.Finding{Property: "C14", Family: "epoch-order", Shape: f + ":epoch-build-fails", What: "a decimal epoch is rejected: " + err.Error(), Input: in})
+				continue
+			}
+			got := pm.Epoch
+			if f != "rpm" {
+				got = ""
+				if i := strings.Index(pm.Version, ":"); i >= 0 {
+					got = pm.Version[:i]
+				}
+			}
+			g, perr := strconv.ParseUint(got, 10, 64)
+			if perr != nil || g != want {
+				c.Rep.Find(report.Finding{Property: "C14", Family: "epoch-order", Shape: f + ":epoch-value-differs",
+					What: fmt.Sprintf("configured epoch %q (= %d) is stored as %q: a higher epoch no longer sorts after every lower one", ep, want, got), Input: in})
+			}
+		}
+	}
 	return nil
 }
 
